@@ -316,7 +316,7 @@ class DistributedRateLimiter(Entity):
 
             # Create forwarding event to downstream entity
             forward_event = Event(
-                time=now,
+                time=self._clock.now if self._clock is not None else now,
                 event_type=f"forward::{event.event_type}",
                 target=self._downstream,
                 context=event.context.copy(),
